@@ -2493,7 +2493,7 @@ pub fn count_distinct() -> impl Function {
         Aggregate::from(
             DataType::Any,
             |values| (values.iter().cloned().collect::<HashSet<_>>().len() as i64).into(),
-            |(_dt, size)| Ok(size),
+            |(_dt, size)| Ok(distinct_size(size)),
         ),
         // Optional implementation
         Aggregate::from(
@@ -2618,6 +2618,15 @@ pub fn sum() -> impl Function {
     ))
 }
 
+/// The number of distinct elements of a list whose size is in `size`:
+/// at most the size, and as low as 1 (0 for an empty list)
+fn distinct_size(size: data_type::Integer) -> data_type::Integer {
+    match (size.min(), size.max()) {
+        (Some(&min), Some(&max)) => data_type::Integer::from_interval(min.clamp(0, 1), max.max(0)),
+        _ => size,
+    }
+}
+
 /// Sum distinct aggregation
 pub fn sum_distinct() -> impl Function {
     Polymorphic::from((
@@ -2639,7 +2648,7 @@ pub fn sum_distinct() -> impl Function {
                 Ok(data_type::Integer::try_from(multiply().super_image(
                     &DataType::structured_from_data_types([
                         intervals.into_interval().into(),
-                        size.into(),
+                        distinct_size(size).into(),
                     ]),
                 )?)?)
             },
@@ -2662,7 +2671,7 @@ pub fn sum_distinct() -> impl Function {
                 Ok(data_type::Float::try_from(multiply().super_image(
                     &DataType::structured_from_data_types([
                         intervals.into_interval().into(),
-                        size.into(),
+                        distinct_size(size).into(),
                     ]),
                 )?)?)
             },
